@@ -378,13 +378,13 @@ fn main() {
         let h = vec![demux::Pkt { s: 0, p: 0, mid: 1, rid: 0 }, demux::Pkt { s: 0, p: 1, mid: 0, rid: 0 }, demux::Pkt { s: 2, p: 2, mid: 3, rid: 0 }];
         let r = demux::run(&cfg, &h, &conn);
         rep.sample(json!({"part": "demux", "cfg": cfg.json(), "history": h.iter().map(|p| p.json()).collect::<Vec<_>>(),
-            "delivered_masks": r.obs.iter().map(|o| format!("{:03b}", o.delivered)).collect::<Vec<_>>(),
-            "reference": r.dec_keep.iter().map(|d| json!({"listener": d.target, "via": d.via.name(), "prov_ok": d.prov_ok})).collect::<Vec<_>>()}));
+            "delivered_masks": r.obs[..r.n].iter().map(|o| format!("{:03b}", o.delivered)).collect::<Vec<_>>(),
+            "reference": r.dec_keep[..r.n].iter().map(|d| json!({"listener": d.target, "via": d.via.name(), "prov_ok": d.prov_ok})).collect::<Vec<_>>()}));
         let cfg2 = demux::Cfg { ops: vec![demux::Op { l: 0, k: demux::Kind::Ssrc(0) }, demux::Op { l: 1, k: demux::Kind::Pt(1) }], special: Some((0, demux::Stat::ClosedAfter)), mid_on: true, rid_on: true };
         let h2 = vec![demux::Pkt { s: 0, p: 1, mid: 0, rid: 0 }, demux::Pkt { s: 0, p: 1, mid: 0, rid: 0 }];
         let r2 = demux::run(&cfg2, &h2, &conn);
         rep.sample(json!({"part": "demux", "cfg": cfg2.json(), "history": h2.iter().map(|p| p.json()).collect::<Vec<_>>(),
-            "delivered_masks": r2.obs.iter().map(|o| format!("{:03b}", o.delivered)).collect::<Vec<_>>()}));
+            "delivered_masks": r2.obs[..r2.n].iter().map(|o| format!("{:03b}", o.delivered)).collect::<Vec<_>>()}));
         let mut rig = bridge::Rig::new();
         let mut st = bridge::BStats::default();
         let hist: Vec<bridge::Letter> = ["A:n", "B:n", "A:J", "B:b", "A:n", "B:E"].iter().map(|s| bridge::Letter::parse(s).unwrap()).collect();
